@@ -87,7 +87,7 @@ def demo(files, n, wd, rng_seed=1, spec='NucleoConform.tla', cand=None):
     runs = []
     for f in files:
         runs += split_runs(f)
-    outside = ('"site":"abort"', '"api":"snapshot"', '"api":"extend_panic"', '"api":"extend_huge"', '"api":"push_checked"', '"api":"mem_balance"')
+    outside = ('"site":"abort"', '"api":"snapshot"', '"api":"extend_panic"', '"api":"extend_huge"', '"api":"push_checked"', '"api":"mem_balance"', '"scenario":"big-bucket-race"')
     runs = [r for r in runs if 30 < len(r) < 1500 and not any(any(o in l for o in outside) for l in r)]
     jobs, meta = [], []
     for t in range(n):
